@@ -600,6 +600,16 @@ var mutations = []mutation{
 		}
 		return ""
 	}},
+	{"interface-under-two-buses", func(r *rng, n *pb.Network, s *sites) string {
+		// the same (node, interface number) listed again, without messages, under the same or another bus
+		if len(s.ifaces) == 0 || len(s.ifLists) == 0 {
+			return ""
+		}
+		src := s.ifaces[r.below(len(s.ifaces))]
+		l := s.ifLists[r.below(len(s.ifLists))]
+		*l = append(*l, &pb.NodeInterface{Number: src.Number, NodeEntityId: src.NodeEntityId})
+		return "interface listed a second time (no messages), same or other bus"
+	}},
 	{"nested-name-clash", func(r *rng, n *pb.Network, s *sites) string {
 		// a multiplexed signal takes the name of a signal at another level of the same message
 		cands := []*pb.Message{}
